@@ -97,6 +97,7 @@ def replay_one(tx):
             if out.ok != (a["out"] == "ok"):
                 res["truncated"] = 1
                 return res
+            sess.touch()
         exp_from = nm.expected(tx["from"], conc)
         got_from = nm.project(sess.nf, sess.reg)
         d = nm.diff(exp_from, got_from)
@@ -129,6 +130,22 @@ def replay_one(tx):
             return res
         if sess.reg.problems:
             res["findings"].append(finding("ids", tx, okind, {"problems": sess.reg.problems[:3]}, conc=conc))
+        # every long-lived handle must report the same as the file (nothing stale on handle objects)
+        state_to = tx["from"] if same else tx["to"]
+        want_sh = nm.expected_shallow(state_to, conc)
+        for label, store in (("kept_from_creation", sess.handles), ("second_long_lived", sess.handles_b)):
+            for num, h in list(store.items()):
+                if num not in want_sh:
+                    continue
+                got_sh = sess.shallow(num, h)
+                d = nm.diff(want_sh[num], got_sh)
+                if d:
+                    res["findings"].append(finding(
+                        "handle", tx, okind,
+                        {"path": d[0][0], "expected": d[0][1], "observed": d[0][2], "handle": label,
+                         "entity_kind": sess.meta[num][0], "gpath": "%s%s" % (sess.meta[num][0], generic(d[0][0]))},
+                        conc=conc))
+                    return res
         if act["name"] == "Copy" and want_ok and getattr(sess, "copy_returned", None) is False:
             res["findings"].append(finding("copy_returned", tx, okind,
                                            {"what": "the handle returned by the copying call does not denote the copy",
@@ -137,6 +154,81 @@ def replay_one(tx):
         for probe in opts.get("probes", ()):
             res["probes"] += 1
             PROBES[probe](sess, tx, exp_to, conc, res, okind)
+        return res
+    finally:
+        sess.close()
+
+
+def replay_walk(item):
+    """
+    One simulated behaviour (TLC -simulate): the calls are executed one after the other in ONE session - no reopen in
+    between, long-lived handles warm (touch) - and after every call outcome, full projection and every long-lived
+    handle are compared with the specification state of that step; the probes run on the final state.
+    """
+    opts = _W["opts"]
+    nixio = _W["nixio"]
+    _W["n"] += 1
+    walk = item["walk"]
+    first = walk[0]
+    conc, cseed = conc_for({"act": first["act"], "hist": [len(walk)]}, opts)
+    path = os.path.join(_W["dir"], "w%d.nix" % (_W["n"] % 4))
+    res = {"findings": [], "truncated": 0, "calls": 0, "probes": 0, "refusals": [], "steps": 0}
+    sess = nm.Session(nixio, path, conc, how_seed=cseed)
+    try:
+        exp = nm.expected(first["from"], conc)
+        for k, step in enumerate(walk):
+            tx = {"hist": [w["act"] for w in walk[:k]], "act": step["act"], "from": step["from"], "to": step["to"],
+                  "obs": step.get("obs", [])}
+            act = step["act"]
+            okind = kind_of(tx, act)
+            out = sess.apply(act)
+            res["calls"] += 1
+            res["steps"] += 1
+            want_ok = act["out"] == "ok"
+            if not out.ok:
+                res["refusals"].append((act["name"], okind, act["out"], out.cls))
+            if out.ok != want_ok:
+                res["findings"].append(finding(
+                    "outcome", tx, okind,
+                    {"expected": act["out"], "observed": "ok" if out.ok else "raised %s: %s" % (out.cls, str(out.exc)[:200]),
+                     "in_walk_at_step": k + 1}, conc=conc))
+                return res
+            same = step["to"].get("same")
+            exp = exp if same else nm.expected(step["to"], conc)
+            got = nm.project(sess.nf, sess.reg)
+            d = nm.diff(exp, got)
+            if d:
+                for path_, e, g in d[:1]:
+                    res["findings"].append(finding("state", tx, okind,
+                                                   {"path": path_, "expected": e, "observed": g, "gpath": generic(path_),
+                                                    "in_walk_at_step": k + 1}, facet=nm.facet_of(path_), conc=conc))
+                return res
+            state_to = step["from"] if same else step["to"]
+            want_sh = nm.expected_shallow(state_to, conc)
+            for label, store in (("kept_from_creation", sess.handles), ("second_long_lived", sess.handles_b)):
+                for num, h in list(store.items()):
+                    if num not in want_sh:
+                        continue
+                    dd = nm.diff(want_sh[num], sess.shallow(num, h))
+                    if dd:
+                        res["findings"].append(finding(
+                            "handle", tx, okind,
+                            {"path": dd[0][0], "expected": dd[0][1], "observed": dd[0][2], "handle": label,
+                             "entity_kind": sess.meta[num][0], "in_walk_at_step": k + 1,
+                             "gpath": "%s%s" % (sess.meta[num][0], generic(dd[0][0]))}, conc=conc))
+                        return res
+            if sess.reg.problems:
+                res["findings"].append(finding("ids", tx, okind, {"problems": sess.reg.problems[:3]}, conc=conc))
+                return res
+            sess.touch()
+            if "dead_ids" in opts.get("probes", ()):
+                n0 = len(res["findings"])
+                probe_dead_ids(sess, tx, exp, conc, res, okind)
+                if len(res["findings"]) > n0:
+                    return res
+        for probe in opts.get("probes", ()):
+            res["probes"] += 1
+            PROBES[probe](sess, tx, exp, conc, res, okind)
         return res
     finally:
         sess.close()
@@ -273,6 +365,54 @@ def probe_lookups(sess, tx, exp_to, conc, res, okind):
                 bad(label, "absent_id_in", {})
         except Exception as exc:  # noqa
             bad(label, "probe_raised", {"raised": repr(exc)[:200]})
+
+
+def probe_dead_ids(sess, tx, exp_to, conc, res, okind):
+    """
+    C03 / C02: the id of a deleted entity is unknown to the container it lived in - through every long-lived handle of
+    the parent and through a fresh one - even when a new entity took over its name.
+    """
+    state = tx["from"] if tx["to"].get("same") else tx["to"]
+    alive = {o["id"] for o in state["objs"]}
+    live_uuids = {sess.uuid[n] for n in alive if n in (sess.uuid or {})}
+    attr = {"block": "blocks", "section": "sections", "group": "groups", "array": "data_arrays", "tag": "tags",
+            "mtag": "multi_tags", "source": "sources", "feature": "features", "property": "props"}
+    for num, uid in list((sess.uuid or {}).items()):
+        if num in alive or uid in live_uuids:
+            continue
+        kind, owner, _ = sess.meta[num]
+        if owner != 0 and owner not in alive:
+            continue
+        parents = [("fresh", sess.nf if owner == 0 else None)]
+        if owner != 0:
+            try:
+                parents = [("fresh", sess.obj(owner, fresh=True))]
+            except Exception:  # noqa
+                continue
+            if owner in sess.handles:
+                parents.append(("kept_from_creation", sess.handles[owner]))
+            if owner in sess.handles_b:
+                parents.append(("second_long_lived", sess.handles_b[owner]))
+        for label, parent in parents:
+            try:
+                cont = getattr(parent, attr[kind])
+                found = uid in cont
+                try:
+                    cont[uid]
+                    got = True
+                except KeyError:
+                    got = False
+                if found or got:
+                    res["findings"].append(finding("lookup", tx, okind,
+                                                   {"container": "%s.%s" % ("file" if owner == 0 else sess.meta[owner][0], attr[kind]),
+                                                    "what": "id_of_deleted_entity_still_resolves", "handle": label,
+                                                    "in": found, "getitem": got}, conc=conc))
+                    return
+            except Exception as exc:  # noqa
+                res["findings"].append(finding("lookup", tx, okind,
+                                               {"container": attr[kind], "what": "dead_id_lookup_raises",
+                                                "raised": type(exc).__name__}, conc=conc))
+                return
 
 
 def probe_free_name(sess, tx, exp_to, conc, res, okind):
@@ -414,6 +554,64 @@ def probe_searches(sess, tx, exp_to, conc, res, okind):
                 return
 
 
+def probe_stamps(sess, tx, exp_to, conc, res, okind):
+    """
+    C19 for the descriptive attributes the entity-graph model does not carry individually (label, unit, calibration,
+    position, extent, units, reference, repository, adding a dimension): after a clock tick each setter is applied to
+    an entity of the reached state; with automatic timestamps on, exactly that entity's updated_at moves to the
+    current time; with them off nothing moves; created_at never moves.
+    """
+    state = tx["from"] if tx["to"].get("same") else tx["to"]
+    setters = {
+        "array": [("label", lambda e: setattr(e, "label", "a label")), ("unit", lambda e: setattr(e, "unit", "mV")),
+                  # (identity calibration: the values read stay the same, so everything else in the projection must too)
+                  ("expansion_origin", lambda e: setattr(e, "expansion_origin", 0.0)),
+                  ("polynom_coefficients", lambda e: setattr(e, "polynom_coefficients", [0.0, 1.0])),
+                  ("append_dimension", lambda e: e.append_set_dimension())],
+        "tag": [("position", lambda e: setattr(e, "position", [2.0])), ("extent", lambda e: setattr(e, "extent", [1.0])),
+                ("units", lambda e: setattr(e, "units", ["ms"]))],
+        "mtag": [("units", lambda e: setattr(e, "units", ["ms"]))],
+        "section": [("reference", lambda e: setattr(e, "reference", "ref")),
+                    ("repository", lambda e: setattr(e, "repository", "http://repo"))],
+    }
+    cands = [o for o in state["objs"] if o["kind"] in setters]
+    sess.rnd.shuffle(cands)
+    for o in cands[:2]:
+        for attr, fn in setters[o["kind"]]:
+            if sess.clock + 1 >= len(conc.times):
+                return
+            before = nm.project(sess.nf, sess.reg)
+            sess.clock += 1
+            now = conc.time(sess.clock)
+            try:
+                h = sess.obj(o["id"])
+                fn(h)
+                stamp = h.updated_at
+            except Exception as exc:  # noqa
+                res["findings"].append(finding("stamps", tx, okind, {"what": "setter_raises", "attr": attr, "kind": o["kind"],
+                                                                     "raised": repr(exc)[:160]}, facet="time", conc=conc))
+                return
+            res["stamp_probes"] = res.get("stamp_probes", 0) + 1
+            after = nm.project(sess.nf, sess.reg)
+            diffs = nm.diff(before, after, limit=8)
+            moved = [d for d in diffs if d[0].rsplit("/", 1)[-1] == "u"]
+            other = [d for d in diffs if d[0].rsplit("/", 1)[-1] != "u"]
+            what = None
+            if other:
+                what = "other_state_changed"
+            elif sess.auto and (stamp != now or len(moved) > 1):
+                # (no difference at all is fine when the entity's update time already was the current time)
+                what = "updated_at_not_current" if stamp != now else "update_time_of_other_entity_moved"
+            elif not sess.auto and moved:
+                what = "timestamp_moved_with_auto_disabled"
+            if what:
+                res["findings"].append(finding("stamps", tx, okind,
+                                               {"what": what, "attr": attr, "kind": o["kind"], "auto": sess.auto,
+                                                "expected_now": now, "observed": stamp,
+                                                "diffs": [list(map(str, d))[:3] for d in diffs[:3]]}, facet="time", conc=conc))
+                return
+
+
 def _mask_ids(tree):
     if isinstance(tree, dict):
         return {k: ("*" if k == "eid" else _mask_ids(v)) for k, v in tree.items()}
@@ -469,6 +667,41 @@ def probe_xcopy(sess, tx, exp_to, conc, res, okind):
     def bad(what, detail):
         res["findings"].append(finding("xcopy", tx, okind, dict(detail, what=what), conc=conc))
 
+    # same file, entity with metadata attached (the one link that leaves the copied subtree): the copy gets its own
+    # duplicate of the section, so a change of the metadata through the copy must not reach the source's section
+    withmeta = [o for o in state["objs"] if o["kind"] in ("array", "tag") and o["rl"]["metadata"]
+                and closed(subtree(o["id"]) | subtree(o["rl"]["metadata"]))]
+    rnd.shuffle(withmeta)
+    for o in withmeta[:1]:
+        try:
+            src = sess.obj(o["id"])
+            blk = sess.obj(o["owner"])
+            newname = "copy of " + conc.name(o["name"])[:40]
+            cp = (blk.create_data_array(name=newname, copy_from=src, keep_copy_id=False) if o["kind"] == "array"
+                  else blk.create_tag(name=newname, copy_from=src, keep_copy_id=False))
+            res["metacopies"] = res.get("metacopies", 0) + 1
+            sm, cm = src.metadata, cp.metadata
+            if cm is None or cm.name != sm.name or cm.definition != sm.definition:
+                bad("samefile/%s_with_metadata/copy_differs" % o["kind"], {"copy_metadata": None if cm is None else cm.name})
+            else:
+                cm.definition = "changed through the copy"
+                got_sections = nm.project(sess.nf, sess.reg)["sections"]
+                d = nm.diff(exp_to["sections"], got_sections)
+                if d or src.metadata.definition == "changed through the copy":
+                    bad("samefile/%s_with_metadata/change_of_copy_metadata_visible_in_source" % o["kind"],
+                        {"path": d[0][0] if d else "src.metadata.definition"})
+                else:
+                    old = sm.definition
+                    sm.definition = "changed through the source"
+                    seen = cp.metadata.definition
+                    sm.definition = old
+                    if seen == "changed through the source":
+                        bad("samefile/%s_with_metadata/change_of_source_metadata_visible_in_copy" % o["kind"], {})
+            # take the copy out again: the cross-file part below compares the source file with the specification state
+            cont = blk.data_arrays if o["kind"] == "array" else blk.tags
+            del cont[newname]
+        except Exception as exc:  # noqa
+            bad("samefile/%s_with_metadata/raises" % o["kind"], {"raised": repr(exc)[:300]})
     cands = [o for o in state["objs"] if (o["kind"] in ("block", "section") and o["owner"] == 0) or o["kind"] == "array"]
     cands = [o for o in cands if closed(subtree(o["id"]))]
     rnd.shuffle(cands)
@@ -548,14 +781,14 @@ def probe_xcopy(sess, tx, exp_to, conc, res, okind):
                 pass
 
 
-PROBES = {"xcopy": probe_xcopy, "searches": probe_searches, "reopen": probe_reopen, "lookups": probe_lookups, "free_name": probe_free_name}
+PROBES = {"stamps": probe_stamps, "dead_ids": probe_dead_ids, "xcopy": probe_xcopy, "searches": probe_searches, "reopen": probe_reopen, "lookups": probe_lookups, "free_name": probe_free_name}
 
 
 def _run_batch(batch):
-    out = {"findings": [], "truncated": 0, "calls": 0, "probes": 0, "n": 0, "errors": [], "refusals": []}
+    out = {"findings": [], "truncated": 0, "calls": 0, "probes": 0, "n": 0, "errors": [], "refusals": [], "steps": 0}
     for tx in batch:
         try:
-            r = replay_one(tx)
+            r = replay_walk(tx) if "walk" in tx else replay_one(tx)
         except core.MachineryError as exc:
             out["errors"].append(str(exc))
             continue
@@ -569,6 +802,7 @@ def _run_batch(batch):
         out["probes"] += r["probes"]
         out["findings"].extend(r["findings"])
         out["refusals"].extend(r["refusals"])
+        out["steps"] += r.get("steps", 0)
     return out
 
 
@@ -617,6 +851,7 @@ class ModelRun:
                 self.stats["truncated"] += out["truncated"]
                 self.stats["calls"] += out["calls"]
                 self.stats["probes"] += out["probes"]
+                self.stats["steps"] = self.stats.get("steps", 0) + out.get("steps", 0)
                 self.errors.extend(out["errors"])
                 for rf in out["refusals"]:
                     self.refusals[rf] = self.refusals.get(rf, 0) + 1
@@ -633,7 +868,46 @@ class ModelRun:
                 pool.apply_async(_run_batch, (list(batch),), callback=done, error_callback=fail)
                 del batch[:]
 
+        walkstate = {"cands": [], "walk": [], "level": 0}
+
+        def finish_walk():
+            w = walkstate["walk"]
+            if walkstate["cands"]:
+                w = w + [walkstate["cands"][0]]        # the last level: any candidate is a legal last step
+            walkstate["cands"], walkstate["walk"] = [], []
+            if len(w) >= 2:
+                self.stats["walks"] = self.stats.get("walks", 0) + 1
+                for st in w:
+                    k = st["act"]["name"] + ":" + st["act"].get("out", "ok")
+                    self.per_action[k] = self.per_action.get(k, 0) + 1
+                if len(self.samples) < 2:
+                    self.samples.append({"walk": [st["act"] for st in w]})
+                batch.append({"walk": [{"act": st["act"], "from": st["from"], "to": st["to"], "obs": st.get("obs", [])}
+                                       for st in w]})
+                if len(batch) >= 4:
+                    flush()
+
+        def cb_sim(tx):
+            # -simulate evaluates the export for every candidate successor of a level; the chosen one is the
+            # candidate whose action re-appears as the last element of the next level's history
+            if not (isinstance(tx, tuple) and tx and tx[0] == "TX"):
+                return
+            tx = tx[1]
+            self.stats["exported"] += 1
+            lvl = len(tx["hist"])
+            if lvl < walkstate["level"] or (lvl == 0 and walkstate["walk"]):
+                finish_walk()
+            if lvl > walkstate["level"] or (walkstate["cands"] and lvl == len(walkstate["cands"][0]["hist"]) + 1):
+                chosen = [c for c in walkstate["cands"] if c["act"] == tx["hist"][-1]]
+                if chosen:
+                    walkstate["walk"].append(chosen[0])
+                walkstate["cands"] = []
+            walkstate["level"] = lvl
+            walkstate["cands"].append(tx)
+
         def cb(tx):
+            if self.simulate:
+                return cb_sim(tx)
             if not (isinstance(tx, tuple) and tx and tx[0] == "TX"):
                 return
             tx = tx[1]
@@ -660,6 +934,8 @@ class ModelRun:
                 self.res = core.run_tlc(self.module, self.cfg, tmp, workers=self.tlc_workers, export_cb=cb,
                                         timeout=self.timeout, coverage=False, simulate=self.simulate,
                                         depth=self.depth, seed=self.seed if self.simulate else None)
+            if self.simulate:
+                finish_walk()
             flush()
             pool.close()
             pool.join()
@@ -719,10 +995,14 @@ def key_of(f):
     if f["stage"] == "outcome":
         obs = d["observed"].split(":")[0]
         return "%s/%s/%s/outcome:%s" % (f["action"], f["okind"], f["out"], obs.replace(" ", "_"))
+    if f["stage"] == "handle":
+        return "%s/%s/%s/stale_handle:%s" % (f["action"], f["okind"], f["out"], d.get("gpath", "?")[:80])
     if f["stage"] in ("state",) or f["stage"].startswith("reopen"):
         return "%s/%s/%s/%s:%s" % (f["action"], f["okind"], f["out"], f["stage"], d.get("gpath", d.get("raised", "?"))[:80])
     if f["stage"] == "search":
         return "search/%s/%s" % (d["what"], d.get("handle", "-"))
+    if f["stage"] == "stamps":
+        return "stamps/%s/%s/%s/auto_%s" % (d["kind"], d["attr"], d["what"], "on" if d.get("auto") else "off")
     if f["stage"] == "xcopy":
         return "xcopy/%s" % d["what"]
     if f["stage"] == "copy_returned":
